@@ -123,6 +123,13 @@ func (l *maximumWaitVehicleConstraintImpl) EstimateIsViolated(
 			stopPositionsCount == 0 &&
 			to.IsPlanned() &&
 			arrival == to.ArrivalValue() {
+			// Nothing changes from here on: the waits of the remaining stops
+			// are the ones already accumulated on the vehicle.
+			remainingWait := vehicle.Last().ConstraintData(l).(*maximumWaitVehicleConstraintData).accumulatedWait -
+				to.Previous().ConstraintData(l).(*maximumWaitVehicleConstraintData).accumulatedWait
+			if accumulatedWait+remainingWait > maxWait {
+				return true, constNoPositionsHint
+			}
 			break
 		}
 
